@@ -660,6 +660,8 @@ def run(chk):
         for name, why in broken.items():
             chk.report("obligation:" + name, "theorem %s no longer checks: %s" % (name, why),
                        {"theorem": name, "reason": why, "log": (chk.oblig or {}).get("log_tail", "")[-1500:]}, found_input=False)
+    from props import C20 as _c20
+    _c20.run_eq_leg(chk, lambda name: "Save" in name or "Load" in name)    # save / load through the C API
     chk.trusted += [
         "modelled, not verified: msgpack::Writer/Reader (Model/Msgpack.lean) and Parameter/Model/Optimizer save+load (Model/Files.lean) are "
         "hand-written models tied to the code by the correspondence runs of this check; the Shape constructor is the C09 model (Model/Shape.lean)",
